@@ -23,13 +23,14 @@ func init() {
 		Assumptions: []string{"mask >= 1; output kept small for big heights (the property's own restriction)", "bit k of bm for the k-th stored node in pre-order: the list position, not the library's PathToIndex (C03 ties the two together)"},
 		Flavours:    releaseThenGo126,
 		Required: []string{"range/from-on-path", "range/from-between-paths", "range/to-on-path", "range/to-beyond-last", "range/from>to", "range/full", "range/empty-result", "range/high-half>=2^h",
-			"level/absent", "h>=20", "decode/bm-shorter", "decode/bm-longer", "decode/bm-empty", "decode/bits>=bitmapSize", "decode/roundtrip", "decode/all-ones"},
+			"level/absent", "h>=20", "decode/bm-shorter", "decode/bm-longer", "decode/bm-empty", "decode/bits>=bitmapSize", "decode/roundtrip", "decode/all-ones", "decode/bm>=2^31-bits"},
 		Families: func(c *mon.Config) []mon.Family {
 			hs := c.Pick(6, 9)
 			return []mon.Family{
 				{Name: "allpaths-small", N: (1 << uint(hs+1)) - 1, Run: c04Small},
 				{Name: "allpaths-windows", N: c.Pick(20000, 1500000), Run: c04Windows},
 				{Name: "decode", N: c.Pick(12000, 1000000), Run: c04Decode},
+				{Name: "decode-huge-bitmap", N: 1, Run: c04DecodeHuge},
 			}
 		},
 	})
@@ -311,8 +312,18 @@ func c04Decode(w *mon.W, idx int) {
 		w.Bucket("decode/roundtrip")
 	}
 	orig := cloneWords(bm)
+	// the bitmap is a view of a larger array whose cells beyond len hold poison (a prefix of a bigger
+	// buffer, a pooled buffer cut back): words beyond len(bm) read as 0 whatever the memory holds
+	bm, guard := dirtyW(bm)
+	if kind == 3 && idx&1 == 0 {
+		bm = nil
+	}
 	w.Op, w.A, w.B = "Decode", int64(mask), int64(len(bm))
 	got := bmtree.Decode(int32(mask), bm)
+	if !guard() {
+		w.Fail("Decode/wrote-outside-len-of-argument", mon.D{"bitmapSize": mask})
+		return
+	}
 	w.Eval(1)
 	exp := []uint64{}
 	for k, p := range list {
@@ -325,7 +336,7 @@ func c04Decode(w *mon.W, idx int) {
 			"got_n": len(got), "expected_n": len(exp), "got": truncW(got, 6), "expected": truncW(exp, 6)})
 		return
 	}
-	if !eqWords(bm, orig) {
+	if !eqWords(bm, orig) && !(bm == nil && len(orig) == 0) {
 		w.Fail("Decode/input-modified", mon.D{"bitmapSize": mask})
 		return
 	}
@@ -337,5 +348,39 @@ func c04Decode(w *mon.W, idx int) {
 	}
 	w.Sample(func() interface{} {
 		return mon.D{"bitmapSize": fmt.Sprintf("%#b", mask), "height": h, "bm_words": len(orig), "kind": kind, "decoded_paths": len(exp)}
+	})
+}
+
+// c04DecodeHuge: a small tree at the head of bitmaps of 2^25-1, 2^25 and 2^25+3 words (2^31 bits and
+// beyond): the bitmap's own bit count no longer fits an int32. The pages are never touched except
+// for the head, so this costs address space, not memory.
+func c04DecodeHuge(w *mon.W, _ int) {
+	r := w.Rng
+	mask := uint32(0xd5) // height 7, partial
+	h := bmHeight(mask)
+	list := c04List(mask, h)
+	big := make([]uint64, 1<<25+3)
+	var exp []uint64
+	for k, p := range list {
+		if r.Intn(3) == 0 {
+			setBit(big, k)
+			exp = append(exp, p)
+		}
+	}
+	big[len(big)-1] = ^uint64(0)
+	for _, n := range []int{4, 1 << 16, 1<<25 - 1, 1 << 25, 1<<25 + 3} {
+		w.Op, w.A, w.B = "Decode(huge bm)", int64(mask), int64(n)
+		got := bmtree.Decode(int32(mask), big[:n])
+		w.Eval(1)
+		w.Tick()
+		if !eqWords(got, exp) {
+			w.Fail("Decode/huge-bitmap", mon.D{"bitmapSize": fmt.Sprintf("%#b", mask), "bm_words": n, "got_n": len(got), "expected_n": len(exp)})
+			return
+		}
+	}
+	w.Bucket("decode/bm>=2^31-bits")
+	w.Distinct(gen.Hash64(0xb16, uint64(len(exp))))
+	w.Sample(func() interface{} {
+		return mon.D{"bitmapSize": fmt.Sprintf("%#b", mask), "bm_words": []int{4, 1 << 16, 1<<25 - 1, 1 << 25, 1<<25 + 3}, "decoded_paths": len(exp)}
 	})
 }
